@@ -200,11 +200,15 @@ def run(mod, prop, tier, seed, budget_override):
     # firing on a loaded machine must not become a verdict
     suspicious = [i for i, r in enumerate(results) if r['fails'] or r['mismatch']]
     confirmed_away = 0
-    for i in suspicious[:40]:
-        again, _ = evaluate(mod, [results[i]['case']])
-        if not again[0]['fails'] and not again[0]['mismatch']:
-            confirmed_away += 1
-        results[i] = again[0]
+    if suspicious:
+        # one batch, but every case alone in its own chunk/worker order does not matter here:
+        # what matters is a second, independent execution
+        idx = suspicious[:60]
+        again, _ = evaluate(mod, [results[i]['case'] for i in idx])
+        for i, r2 in zip(idx, again):
+            if not r2['fails'] and not r2['mismatch']:
+                confirmed_away += 1
+            results[i] = r2
     if confirmed_away:
         notes.append(f'{confirmed_away} first-pass anomalies did not reproduce in isolation')
 
